@@ -15,7 +15,8 @@
 #include <ostream>
 
 // input: bytes [0,size); from byte offset fail_at on the stream delivers nothing (fail_at >= size: no fault)
-struct VStream { const uint8_t *data; uint64_t size, pos, fail_at; bool failed; };
+// layout note: the INLINE std::istream::gcount() reads basic_istream::_M_gcount, the 8 bytes after the vptr (offset 8)
+struct VStream { const void *vptr_unused; int64_t gcount; const uint8_t *data; uint64_t size, pos, fail_at; bool failed; };
 
 // output: the symbolic-build object must look like a std::ostream to the INLINE ostream.good():
 //   vptr at offset 0; vptr[-3] = offset of the virtual base basic_ios (here 8); ios_base::_M_streambuf_state at +32 of it.
@@ -91,7 +92,7 @@ struct VOut {
 #else
 struct VIn {
   VStream vs;
-  VIn(const uint8_t *d, uint64_t n, uint64_t fail_at) { vs.data = d; vs.size = n; vs.pos = 0; vs.fail_at = fail_at; vs.failed = false; }
+  VIn(const uint8_t *d, uint64_t n, uint64_t fail_at) { vs.vptr_unused = nullptr; vs.gcount = 0; vs.data = d; vs.size = n; vs.pos = 0; vs.fail_at = fail_at; vs.failed = false; }
   std::istream &stream() { return *reinterpret_cast<std::istream *>(&vs); }
 };
 struct VOut {
